@@ -571,9 +571,11 @@ class ContentsHandler(Handler):
 
         if isinstance(node, n.Directive):
             if node.name == "method-option":
-                self.scanned_pattern.append((node.name, node.options["id"]))
+                self.scanned_pattern.append((node.name, node.options.get("id", "")))
             elif node.name == "tab":
-                self.scanned_pattern.append((node.name, node.options["tabid"]))
+                self.scanned_pattern.append(
+                    (node.name, node.options.get("tabid", ""))
+                )
 
         if isinstance(node, n.Directive) and node.name == "contents":
             if self.has_contents_directive:
@@ -606,8 +608,8 @@ class ContentsHandler(Handler):
                 ContentsHandler.HeadingData(
                     # Add 1 since section appears as a child
                     self.current_depth + 1,
-                    node.options["id"],
-                    [n.Text(node.span, node.options["heading"])],
+                    node.options.get("id", ""),
+                    [n.Text(node.span, node.options.get("heading", ""))],
                     selector_ids,
                 )
             )
@@ -1959,11 +1961,19 @@ class FacetsHandler(Handler):
         def get_children_total(
             child: n.Node,
         ) -> int:
-            return (
-                len(child.options["values"].split(","))
-                if hasattr(child, "options")
-                else 0
-            )
+            if (
+                isinstance(child, n.Directive)
+                and child.name == "facet"
+                and "name" in child.options
+                and "values" in child.options
+            ):
+                return len(child.options["values"].split(","))
+            return 0
+
+        if "name" not in node.options or "values" not in node.options:
+            # The parser has already reported the missing option
+            self.removal_nodes.append(node)
+            return
 
         facet_values = node.options["values"]
         parent = None
@@ -2221,7 +2231,9 @@ class MultiPageTutorialHandler(Handler):
         self.pending_node_removals.append(node)
 
         if self.found_directive:
-            DuplicateDirective(self.target_directive_name, node.start[0])
+            self.context.diagnostics[fileid_stack.current].append(
+                DuplicateDirective(self.target_directive_name, node.start[0])
+            )
             return
 
         self.found_directive = node
@@ -2237,7 +2249,11 @@ class MultiPageTutorialHandler(Handler):
 
         # Remove AST(s) to avoid unnecessary duplicate data
         for node in self.pending_node_removals:
-            page.ast.children.remove(node)
+            try:
+                page.ast.children.remove(node)
+            except ValueError:
+                # Not a top-level node: it stays where it is
+                pass
 
 
 class ComposableTutorialHandler(Handler):
